@@ -4,17 +4,23 @@ import "verifharness/internal/core"
 
 // Registry maps property ids to their runners.
 var Registry = map[string]func(*core.Ctx){
+	"C01":   RunC01,
 	"C02":   RunC02,
+	"C03":   RunC03,
 	"C04":   RunC04,
 	"C06":   RunC06,
 	"C07":   RunC07,
 	"C05":   RunC05,
 	"C08":   RunC08,
+	"C09":   RunC09,
+	"C10":   RunC10,
 	"C11":   RunC11,
 	"C12":   RunC12,
 	"C13":   RunC13,
 	"C14":   RunC14,
 	"C15":   RunC15,
+	"C17":   RunC17,
+	"C18":   RunC18,
 	"C20":   RunC20,
 	"SMOKE": RunSmoke,
 }
@@ -30,4 +36,9 @@ func RegisterOnly(c *core.Ctx) {
 	registerVoucherKinds(c)
 	registerServerKinds(c)
 	registerRedirectKind(c)
+	registerDeviceKinds(c)
+	registerMatrixKinds(c)
+	registerStoreKinds(c)
+	registerFsimKinds(c)
+	registerHandoverKinds(c)
 }
